@@ -174,7 +174,7 @@ def main():
             t.append({"ev": "reset", "ptr": int(m2.pointer())})
             t.append(ev_proc(m2, key, 0, 7, i % 256)[0])
             traces.append(t)
-        for size in ([65536, 65536 + 3, 1 << 20] if thorough else [65536 + 1]):
+        for size in ([65536, 65536 + 3, 200001] if thorough else [65536 + 1]):
             key = [rng.getrandbits(8) for _ in range(4)]
             m = mk(key, size)
             t = [ev_new(m, key)]
